@@ -121,6 +121,7 @@ Alts(t) == LET e == Expected(t, NoDev) IN
              SelectSeq([i \in 1..Len(Sigs) |-> [sig |-> Sigs[i].sig, res |-> Expected(t, Sigs[i].d)]], LAMBDA a : a.res # e)
 ExportInv == Final => PrintT(<<"CASE", ToJson([top |-> top, exp |-> Expected(top, NoDev), alt |-> Alts(top)])>>)
 \* small instances of the sensitivity runs
-DihSmall == {DihTop(p) : p \in {q \in DParams : q.ti = <<2, 2>> /\ ~q.miss /\ ~q.cfirst}}
+DihSmall == {DihTop(p) : p \in {q \in DParams : q.ti = <<2, 2>> /\ ~q.miss /\ ~q.cfirst /\ q.df = "none"}}
+DihSmallTbl == {DihTop(p) : p \in {q \in DParams : q.ti = <<2, 2>> /\ ~q.miss /\ ~q.cfirst /\ (q.df = "tbl" \/ ~q.comp) /\ (q.comp => q.m2 \in {{}, {1}, {1, 2, 3, 4}})}}
 PlainSmall == PlainFam \cup {MacroTop(p) : p \in {q \in MacroParams : q.b1 = "mac" /\ q.ni = 2}}
 =============================================================================
